@@ -77,8 +77,18 @@ def cases(tier, rng):
         add("listener", "flag", "svc~" + s + "://127.0.0.1:2222", model=False, src="doc" if s in DOC_LISTENER else "neighbour")
         add("listener", "flag", "svc~" + s + "://127.0.0.1:2222~tcp://127.0.0.1:22", model=False, src="doc" if s in DOC_LISTENER else "neighbour")
     for t in ("svc", "svc~", "~tcp://h:1", "svc~tcp://h:1~", "svc~tcp://h:1~tcp://x:1~extra", "a~b~c", "", '{"address":"tcp://127.0.0.1:1","name":"x"}',
-              '}{"address":"tcp://127.0.0.1:1"}', '}{"address":5}', "}{}"):
+              '}{"address":"tcp://127.0.0.1:1"}', '}{"address":5}', "}{}",
+              # each of the three parts malformed at the URL level (bad port, unclosed bracket, broken escape, control character, blank)
+              "svc~tcp://127.0.0.1:22~tcp://127.0.0.1:x22", "svc~tcp://127.0.0.1:22~tcp://[::1", "svc~tcp://127.0.0.1:22~tcp://h%zz:1",
+              "svc~tcp://127.0.0.1:22~tcp://h\x7f:1", "svc~tcp://127.0.0.1:22~tcp://a b:1", "svc~tcp://127.0.0.1:22~:", "svc~tcp://127.0.0.1:x22",
+              "svc~tcp://[::1", "svc~tcp://h%zz:1~tcp://127.0.0.1:22"):
         add("listener", "flag", t, model=False, src="malformed")
+    # (the model is the scheme table; what net/url rejects beyond the scheme is observed on the implementation only: an error, never a crash)
+    for t in ("tcp://127.0.0.1:x22", "tcp://[::1", "tcp://h%zz:1", "udp://u:p@h:x", "dns://exa mple.org"):
+        add("upstream", "flag", t, model=False, src="malformed")
+    for t in ("tcp://127.0.0.1:x22", "tcp://[::1", "http://h%zz:1"):
+        add("server", "json", t, "0", model=False, src="malformed")
+        add("channel", "json", t, model=False, src="malformed")
     # an upstream object keeps its transport when it connects again (after a failed attempt, after a lost session): a TLS scheme opens
     # with a TLS hello every time
     for kind in ("tcp+tls", "wss"):
